@@ -1076,6 +1076,8 @@ def _put_one_exprlike_optional(
         set_field(self.a, None, field, idx)
         child.f._unmake_fst_tree()
 
+        self._fix_joined_alnums(loc.ln, loc.col)  # delete may have joined two alphanumerics which were separated only by delimiters of the deleted node, e.g. `case[a] as b` -> `caseb`
+
         return None
 
     # put new node
